@@ -123,22 +123,26 @@ def spill_rules(repo):
         p = pm[s]
         blk = p.body if s in getattr(p, "body", []) else getattr(p, "orelse", [])
         t = [unparse(x) for x in blk]
-        need = ["count = min(bg_bin_count[idx], loci_bin_count[i])", "bg_bin_count[idx] -= count", "loci_bin_count[i] -= count",
-                "matched_loci_bin_count[idx] += count"]
-        if [x for x in t if x in need] != need or len(t) != 4:
-            bad = (s, t)
+        # the amount variable is whatever receives min(background[idx], wanted[i]) in this block
+        amt = [x.targets[0].id for x in blk if isinstance(x, ast.Assign) and isinstance(x.targets[0], ast.Name) and
+               unparse(x.value) in ("min(bg_bin_count[idx], loci_bin_count[i])", "min(loci_bin_count[i], bg_bin_count[idx])")]
+        c_ = amt[0] if amt else "count"
+        need = ["bg_bin_count[idx] -= %s" % c_, "loci_bin_count[i] -= %s" % c_, "matched_loci_bin_count[idx] += %s" % c_]
+        if not amt or [x for x in t if x in need] != need:
+            bad = (s, t, c_, bool(amt))
         else:
             n_ok += 1
     if bad:
-        t = bad[1]
-        if not any(x.startswith("count = min(") for x in t):
-            out.append(violation("COUNTS", fi, role, "transfer amount is not min(background, wanted): %s" % t, bad[0]))
-        elif "bg_bin_count[idx] -= count" not in t:
+        t, c_, has_min = bad[1], bad[2], bad[3]
+        direct = [x for x in t if x in ("%s = bg_bin_count[idx]" % c_, "%s = loci_bin_count[i]" % c_)]
+        if not has_min and direct:
+            out.append(violation("COUNTS", fi, role, "transfer amount is `%s`, not min(background, wanted)" % direct[0], bad[0]))
+        elif has_min and not any(x.startswith("bg_bin_count[") and "-=" in x for x in t):
             out.append(violation("COUNTS", fi, role, "background histogram is not reduced: the same tiles can be promised twice", bad[0]))
-        elif "loci_bin_count[i] -= count" not in t:
+        elif has_min and not any(x.startswith("loci_bin_count[") and "-=" in x for x in t):
             out.append(violation("COUNTS", fi, role, "wanted histogram is not reduced: more loci than inputs can be matched", bad[0]))
         else:
-            out.append(unrecognised("COUNTS", fi, role, str(t), bad[0]))
+            out.append(unrecognised("COUNTS", fi, role, str(t)[:200], bad[0]))
     else:
         out.append(holds("COUNTS", fi, role, "%d transfer sites" % n_ok, stores[0]))
     role = "exact-bin matching first: matched = minimum(background, wanted), both reduced by it"
